@@ -29,7 +29,15 @@
            whose file-local splitter cannot be called)
    "receives exactly the executable, the argument vector and the environment it was given"
         -> launch_argv_exact, launch_argv0_exact, launch_list_exact, launch_cmdline_exact,
-           launch_cmdline_total (pure preparation code: arrays handed to execvpe)
+           launch_cmdline_total (pure preparation code: arrays handed to execvpe) - the open() entry points;
+           start_argv_exact, start_argv0_exact, start_cmdline_exact, start_cmdline_total - the start() entry points
+           (round 5: the code carries the preparation once per entry point; so does the model);
+           cmdline_of_property_class_exact (either command-line entry point, a line of the property's class: the child
+           gets exactly the words ArgsSpec.split_seen names, the first one is the program)
+   the class "all command lines of words separated by single spaces with double-quoted segments and escaped quotes
+   inside them" (round 5: ArgsSpec.in_class; outside it - leading / trailing / doubled unquoted space, open quote -
+   the text and Process.hpp say nothing and the oracle of the check leaves the words open)
+        -> splitter_exact_on_property_class, quoting_stays_in_property_class, every_word_list_has_a_class_line
    "(after the documented quoting rules of the command-line form)", words ending in a backslash (round 3)
         -> splitter_trailing_backslash_exact / _last / _merges (what the splitter makes of the plain
            quoting of such a word), splitter_roundtrip_all_words, reference_roundtrip_all_words (a quoting
@@ -43,7 +51,9 @@
         -> process_step_invariant_and_refinement (one step: invariant kept, answers of the life-cycle
            reference), process_refines_lifecycle (whole histories), process_never_closes_twice (ALL
            histories, all kernel answers with fresh descriptors), process_accounting_unconditional,
-           process_holds_one_descriptor_per_stream, join_returns_kernel_exit_code,
+           process_holds_one_descriptor_per_stream, join_returns_kernel_exit_code (Model: WEXITSTATUS of any status),
+           join_returns_exit_code_of_exited_child ("join() returns its exit code": the statement the oracle compares),
+           join_of_signalled_child_unspecified (a child ended by a signal has no exit code: the oracle leaves it open),
            idle_process_refuses_without_side_effects, idle_close_is_noop, running_process_refuses_second_start,
            failed_wait_can_be_retried.
            What the property-level reference asks of a refused call (the text is silent on misuse and on errno) is the
@@ -286,6 +296,32 @@ Example splitter_roundtrip_all_words_ex :
   split_model (join_words_bs ws) = Ok ws /\ split_ref (join_words_bs ws) = ws.
 Proof. repeat split; vm_compute; reflexivity. Qed.
 
+(* round 5: the class of command lines the property quantifies over *)
+Theorem splitter_exact_on_property_class : forall s ws, nz s -> split_seen s = Some ws -> split_model s = Ok ws.
+Proof. exact split_seen_exact. Qed.
+Print Assumptions splitter_exact_on_property_class.
+
+(* in the class / outside it: leading, trailing, doubled unquoted space, unterminated quote; a doubled space INSIDE quotes is fine *)
+Example splitter_exact_on_property_class_ex :
+  split_seen (B "prog ""a  b"" """" x\y") = Some [B "prog"; B "a  b"; B ""; B "x\y"] /\
+  split_model (B "prog ""a  b"" """" x\y") = Ok [B "prog"; B "a  b"; B ""; B "x\y"] /\
+  split_seen (B " a") = None /\ split_seen (B "a ") = None /\ split_seen (B "a  b") = None /\
+  split_seen (B "a ""b") = None /\ split_seen [] = Some [].
+Proof. repeat split; vm_compute; reflexivity. Qed.
+
+Theorem quoting_stays_in_property_class : forall ws, in_class (join_words_bs ws) = true.
+Proof. exact join_bs_in_class. Qed.
+Print Assumptions quoting_stays_in_property_class.
+
+Theorem every_word_list_has_a_class_line : forall ws, split_seen (join_words_bs ws) = Some ws.
+Proof. exact ArgsProofsClass.every_word_list_has_a_class_line. Qed.
+Print Assumptions every_word_list_has_a_class_line.
+
+Example every_word_list_has_a_class_line_ex :
+  let ws := [B "a b"; []; B "q""r"; B "tail\"; B " "] in
+  in_class (join_words_bs ws) = true /\ split_seen (join_words_bs ws) = Some ws.
+Proof. split; vm_compute; reflexivity. Qed.
+
 (* ---------------- C. what is handed to exec ---------------- *)
 
 Theorem launch_argv_exact : forall exe argv env,
@@ -336,6 +372,47 @@ Example launch_cmdline_exact_ex :
   Ok {| x_program := B "prog"; x_args := [B "prog"; B "a b"; B ""; B "x\y"; B "q""r\s"; B "tail\"];
         x_env := None |} /\
   launch_cmdline [] [] = Ok {| x_program := []; x_args := [[]]; x_env := None |}.
+Proof. split; vm_compute; reflexivity. Qed.
+
+(* round 5: the start() entry points carry their own copies of the preparation *)
+Theorem start_argv_exact : forall program argv env,
+  start_argv program (length argv) (map Some argv) env = Ok (launch_ref_argv program argv env).
+Proof. exact start_argv_correct. Qed.
+Print Assumptions start_argv_exact.
+
+Theorem start_argv0_exact : forall program argv env,
+  start_argv program (S (length argv)) (map Some argv ++ [None]) env = Ok (launch_ref_argv0 program argv env).
+Proof. exact start_argv0_correct. Qed.
+Print Assumptions start_argv0_exact.
+
+Theorem start_cmdline_exact : forall cmd env,
+  nz cmd -> start_cmdline cmd env = Ok (launch_ref_cmdline cmd env).
+Proof. exact start_cmdline_correct. Qed.
+Print Assumptions start_cmdline_exact.
+
+Theorem start_cmdline_total : forall cmd env, exists x, start_cmdline cmd env = Ok x.
+Proof. exact ArgsProofsLaunch.start_cmdline_total. Qed.
+Print Assumptions start_cmdline_total.
+
+(* 17 arguments, an empty one first and last; an argument-less vector; a quoted program name with a space *)
+Example start_entry_points_ex :
+  start_argv (B "p") 18 (map Some (B "zero" :: [] :: repeat (B "x") 15 ++ [[]])) [] =
+    Ok {| x_program := B "p"; x_args := B "p" :: [] :: repeat (B "x") 15 ++ [[]]; x_env := None |} /\
+  start_argv (B "p") 0 [] ex_env = Ok {| x_program := B "p"; x_args := [B "p"]; x_env := Some [B "HOME=/h"; B "K="] |} /\
+  start_cmdline (B """sp dir/prog"" """" x") [] =
+    Ok {| x_program := B "sp dir/prog"; x_args := [B "sp dir/prog"; []; B "x"]; x_env := None |}.
+Proof. repeat split; vm_compute; reflexivity. Qed.
+
+Theorem cmdline_of_property_class_exact : forall cmd env ws, nz cmd -> split_seen cmd = Some ws ->
+  let ws' := match ws with [] => [[]] | _ => ws end in
+  launch_cmdline cmd env = Ok {| x_program := hd [] ws'; x_args := ws'; x_env := env_ref env |} /\
+  start_cmdline cmd env = Ok {| x_program := hd [] ws'; x_args := ws'; x_env := env_ref env |}.
+Proof. exact cmdline_class_exact. Qed.
+Print Assumptions cmdline_of_property_class_exact.
+
+Example cmdline_of_property_class_exact_ex :
+  split_seen (B """./a""c """" x") = Some [B "./ac"; []; B "x"] /\
+  launch_cmdline (B """./a""c """" x") [] = Ok {| x_program := B "./ac"; x_args := [B "./ac"; []; B "x"]; x_env := None |}.
 Proof. split; vm_compute; reflexivity. Qed.
 
 (* ---------------- D. the process environment (round 3) ---------------- *)
@@ -560,6 +637,25 @@ Example join_returns_kernel_exit_code_ex :
   fst (fst (prun [ex_open7 (Some 4242); PJoin (Some (255 * 256))] pobj0 world0)) = [RBool true; RJoin 255] /\
   wexit 9 = 0 /\ wexit (3 * 256) = 3.
 Proof. repeat split; vm_compute; reflexivity. Qed.
+
+(* round 5: "join() returns its exit code" - for a child that exited (status = code * 256) the code, exactly *)
+Theorem join_returns_exit_code_of_exited_child : forall lost s w c, PInv lost s w -> p_pid s <> 0 -> 0 <= c < 256 ->
+  join_code_specified (PJoin (Some (c * 256))) = true /\
+  fst (fst (pstep (PJoin (Some (c * 256))) s w)) = RJoin c.
+Proof. exact join_exit_code_exited. Qed.
+Print Assumptions join_returns_exit_code_of_exited_child.
+
+(* a child ended by signal sg (with or without a core dump) has no exit code: the property-level observation leaves it open *)
+Theorem join_of_signalled_child_unspecified : forall sg core, 0 < sg < 128 -> (core = 0 \/ core = 128) ->
+  join_code_specified (PJoin (Some (sg + core))) = false.
+Proof. exact join_signalled_unspecified. Qed.
+Print Assumptions join_of_signalled_child_unspecified.
+
+Example join_code_specified_ex :
+  join_code_specified (PJoin (Some (47 * 256))) = true /\ join_code_specified (PJoin (Some 9)) = false /\
+  join_code_specified (PJoin (Some 14)) = false /\ join_code_specified (PJoin (Some (11 + 128))) = false /\
+  join_code_specified (PJoin None) = true.
+Proof. repeat split; reflexivity. Qed.
 
 Theorem idle_process_refuses_without_side_effects : forall lost s w o, PInv lost s w -> p_pid s = 0 ->
   match o with PJoin _ | PKill _ | PRead2 _ _ _ => True | _ => False end ->
